@@ -4,14 +4,13 @@ import PyYetiVerif.Model.Fde
 import PyYetiVerif.Model.Rainflow
 import PyYetiVerif.Model.FdePsd
 import PyYetiVerif.Model.FindapFix
-import PyYetiVerif.Model.FdePsdFix
 import PyYetiVerif.Model.BinifyLabels
 import PyYetiVerif.Model.FindapLocate
 /-! Line protocol for C10.  Numbers are exact rationals `n` or `n/d`; `|` separates groups,
 `;` separates cycles.
 
   fd  tol | y…                      default findap      → selected indices | `value-error`
-  fs  tol | y…                      numba-variant       → selected indices | `unbound` | `value-error`
+  fs  tol | y…                      numba-variant       → selected indices | `value-error`
   nd  tol | y…                      NoSubTolDrift       → `1` | `0`
   gs  n mx mn right                 getbins scalar      → edges
   gv  mx mn right | bins…           getbins vector      → `value-error` | `oob edges…`
@@ -33,9 +32,7 @@ import PyYetiVerif.Model.FindapLocate
   sx  tol right precision retbins pandas | spec | spec | y…     sigcount, everything returned
   fu  tol | y…                      locate.find_unique  → 0/1 flags | `value-error`
   fdup tol | v…                     locate.find_duplicates → `flags(code model)|flags(documented meaning)`
-  REPAIR CANDIDATES (models of patched text, used by corpus/c10_candidate_fix_check.py only):
-  xd  tol | y…   patched default findap;  xs  tol | y…   patched numba variant;  xk tol | y…  fast-path flag
-  ffx …          as `ff` with the patched `var_test` (F25)
+  xk  tol | y…                      `_unique_kept`'s vectorised test passes (`1`) / the sequential scan runs (`0`)
 -/
 open PyYetiVerif
 
@@ -84,7 +81,7 @@ def toCyc3 (cs : List (List Rat)) : List (Rat × Rat × Rat) := cs.filterMap fun
 
 /-- `rainflow(sig[findap(sig)])` as `[amp, mean, count]` rows -/
 def pipeline (tol : Rat) (y : List Rat) : Option (List (Rat × Rat × Rat)) :=
-  match Findap.findapDef tol y with
+  match Findap.findapDefFix tol y with
   | none => none
   | some m =>
       let peaks := (Findap.selOf m y 0).map (·.2)
@@ -166,29 +163,9 @@ def answer (line : String) : String :=
   | ["fdup", t] :: [ys] => match parseRat t, parseRats ys with
       | some tol, some y => s!"{fmtMask (Findap.findDuplicates tol y)}|{fmtMask (Findap.dupSpec tol y)}"
       | _, _ => "bad-op"
-  | ["xd", t] :: [ys] => match parseRat t, parseRats ys with
-      | some tol, some y => match Findap.findapDefFix tol y with
-          | some m => fmtNats ((Findap.selOf m y 0).map (·.1))
-          | none => "value-error"
-      | _, _ => "bad-op"
-  | ["xs", t] :: [ys] => match parseRat t, parseRats ys with
-      | some tol, some y => match Findap.findapSeqFix tol y with
-          | some l => fmtNats (l.map (·.1))
-          | none => "value-error"
-      | _, _ => "bad-op"
   | ["xk", t] :: [ys] => match parseRat t, parseRats ys with
       | some tol, some (a :: r) => if Findap.fastOK (Findap.stol tol (a :: r)) a r then "1" else "0"
       | _, _ => "bad-op"
-  | ["ffx", rs, q, f, t0, n, tol] :: [xs] =>
-      match parseResp rs, parseF q, parseF f, parseF t0, n.toNat?, parseF tol, parseFs xs with
-      | some rs, some q, some f, some t0, some n, some tol, some x =>
-          match Fde.fdeFreq rs q f t0 n tol x with
-          | some o =>
-              let r := o.tab.row
-              let t := { o.tab with psd := Fde.psdRowFix rs q f t0 r.amax o.tab.g2max r.df4 r.df8 r.df12 }
-              s!"{fmtFs [o.srs, o.var, o.tab.row.amax]} {fmtTab t}"
-          | none => "value-error"
-      | _, _, _, _, _, _, _ => "bad-op"
   | ["ab", n, r] :: [xs] => match n.toNat?, parseBool r, parseRats xs with
       | some n, some r, some xs => match Binify.maxOf xs, Binify.minOf xs with
           | some mx, some mn =>
@@ -225,15 +202,14 @@ def answer (line : String) : String :=
           | none => "value-error"
       | _, _, _, _, _ => "bad-op"
   | ["fd", t] :: [ys] => match parseRat t, parseRats ys with
-      | some tol, some y => match Findap.findapDef tol y with
+      | some tol, some y => match Findap.findapDefFix tol y with
           | some m => fmtNats ((Findap.selOf m y 0).map (·.1))
           | none => "value-error"
       | _, _ => "bad-op"
   | ["fs", t] :: [ys] => match parseRat t, parseRats ys with
-      | some tol, some y => match Findap.findapSeq tol y with
-          | .sel l => fmtNats (l.map (·.1))
-          | .unbound => "unbound"
-          | .empty => "value-error"
+      | some tol, some y => match Findap.findapSeqFix tol y with
+          | some l => fmtNats (l.map (·.1))
+          | none => "value-error"
       | _, _ => "bad-op"
   | ["nd", t] :: [ys] => match parseRat t, parseRats ys with
       | some tol, some y => if Findap.NoSubTolDrift (Findap.stol tol y) y then "1" else "0"
